@@ -12,7 +12,8 @@
          n = `retry` (variant with a budget) / fuel (`while True`: out of fuel = py:nontermination)
          each run is on the INITIAL device                      -> <outcome> | <trace> | <state>
     snap                               the current device becomes the initial one (histories)   -> ok
-    variant <floor|-> <budget|->       variant of pyipmi/sel.py the runs model (default: as read from the source)
+    variant <floor|-> <budget|-> <empty-answer stop 0|1>
+                                       variant of pyipmi/sel.py the runs model (default: as read from the source)
     decode <hex>                       SelEntry._from_response  -> ok <id> <type> <ts> <gen> <evm> <stype> <snum>
                                                                       <deassert 0|1> <etype> <hex event data> | DecodingError
     state ::= log=<hex,…> deleted=<hex:res,…> cur=<n> valid=<0|1> evs=<n left>
@@ -97,10 +98,11 @@ def handle (s : St) (line : String) : St × String :=
   | ["state"] => (s, showState s.cur)
   | "run" :: op => (s, runOp s.v s.init op)
   | ["snap"] => ({ s with init := s.cur }, "ok")
-  | ["variant", f, b] =>
-    match (if f == "-" then some none else f.toInt?.map some), (if b == "-" then some none else b.toNat?.map some) with
-    | some f, some b => ({ s with v := ⟨f, b⟩ }, "ok")
-    | _, _ => (s, "bad-op")
+  | ["variant", f, b, e] =>
+    match (if f == "-" then some none else f.toInt?.map some), (if b == "-" then some none else b.toNat?.map some),
+        e.toNat? with
+    | some f, some b, some e => ({ s with v := ⟨f, b, e != 0⟩ }, "ok")
+    | _, _, _ => (s, "bad-op")
   | ["decode", h] =>
     match ofHex h with
     | some d => (s, showEntry (decodeEntry d))
